@@ -305,7 +305,16 @@ func (lang Language) MultilineCommentEnd() string {
 // string allows for escaping.
 func (lang Language) QuoteCharacter(quote rune) (ok bool, escape bool) {
 	switch quote {
-	case '"', '\'':
+	case '\'':
+		switch lang {
+		case Clojure, Lisp, SystemVerilog, Verilog:
+			// The apostrophe is the quote operator of the Lisp family and
+			// separates the width from the value of a sized number in
+			// Verilog ("8'hFF"). It never starts a string.
+			return false, false
+		}
+		return true, true
+	case '"':
 		return true, true
 	case '`':
 		if lang == Go {
